@@ -109,6 +109,18 @@ async fn run_case(ctx: Arc<Ctx>, c: &Case) {
         let ctx2 = ctx.clone();
         let prog2 = prog.clone();
         let cap = c.cap;
+        // the order in which the reopened engine is interrogated varies with the cut: bottom-up
+        // repairs everything on the way, top-down asks the consumers first (a lost dirty mark
+        // above a repaired node only shows when the consumer is asked before the node below it)
+        let mut order: Vec<usize> = (0..prog2.n()).collect();
+        match (cut as u64 + c.cutseed) % 3 {
+            0 => {}
+            1 => order.reverse(),
+            _ => {
+                use rand::seq::SliceRandom;
+                order.shuffle(&mut StdRng::seed_from_u64(c.cutseed ^ cut as u64));
+            }
+        }
         let h = tokio::spawn(async move {
             let engine = kv_engine(&ctx2, &store2, cap, None).await;
             {
@@ -123,7 +135,7 @@ async fn run_case(ctx: Arc<Ctx>, c: &Case) {
                 ctx2.rec.push(Event::Recovered { inputs: seen.clone() });
                 ctx2.rec.push(Event::Tracked { t: 0 });
                 if seen.iter().all(|(_, v)| *v != ABSENT) {
-                    for i in 0..prog2.n() {
+                    for &i in &order {
                         let v = query_node(&ctx2, &te, i).await;
                         ctx2.rec.push(Event::Query { t: 0, n: i + 1, v });
                     }
@@ -137,7 +149,7 @@ async fn run_case(ctx: Arc<Ctx>, c: &Case) {
                 d.step(&Action::Set { n: i + 1, v: (k as i64 + cut as i64) % prog2.m }).await;
             }
             d.step(&Action::Commit).await;
-            for i in 0..prog2.n() {
+            for &i in order.iter().rev() {
                 d.step(&Action::Query { t: 0, n: i + 1 }).await;
             }
             d.drop_handles();
